@@ -3,6 +3,7 @@
 from __future__ import annotations
 
 from ..rules import dispatch, sqlplace
+from ..rules import payload, triviality, typing as typing_rules
 from .common import new_run
 
 LEVEL = "other"
@@ -34,5 +35,8 @@ def check(model, tier):
     sqlplace.r08_2_compound_guard(ctx)
     sqlplace.r08_3_order_by_scope(ctx)
     sqlplace.r02_1_placement_table(ctx, rule="R08.2t")
+    triviality.r05_2_noop_predicates_agree(ctx, rule="R08.6")
+    typing_rules.r08_5_slice_subscripts(ctx)
+    payload.r10_4_who_may_attach(ctx, rule="R08.7")
     run.assume("EngineError for iteration-engine joins and for unprocessed transfers/materializations are documented refusals")
     return run
